@@ -1,3 +1,4 @@
+import errno
 import os.path
 from typing import NamedTuple
 
@@ -45,4 +46,8 @@ def move_file(fs,  # type: Fs
               ):
     # Using nornpath allow to delete symlink to a dir even if the are
     # specified with traling slash
+    if os.path.ismount(src.rstrip(os.path.sep) or src):
+        # rename(2) of a mount point fails and shutil.move would then copy the
+        # whole volume into the trash and delete the originals
+        raise OSError(errno.EBUSY, "cannot trash a mount point", src)
     fs.move(os.path.normpath(src), dest)
